@@ -63,6 +63,36 @@ def rpms_add_arch(sym, n):
         sym.check("filed-under-that-arch", sorted(m.rpms["Server"].keys()) == [arch])
 
 
+def add_arch_history(sym, kind, n, same):
+    """refusals are stateless: in any sequence of adds on one manifest every call with a source or unknown arch is refused,
+    also when the very same call was refused (or accepted) before"""
+    m = Rpms() if kind == "rpms" else Images()
+    first = sym.str("arch0", n)
+    arches = [first, first if same else sym.str("arch1", n), first]
+    accepted = []
+    for step, arch in enumerate(arches):
+        try:
+            if kind == "rpms":
+                m.add("Server", arch, "glibc-0:2.18-11.fc20.src.rpm", "Server/source/g/glibc-%d.src.rpm" % step, None, "source")
+            else:
+                m.add("Server", arch, valid_image(m, "Server/source/iso/a.iso"))
+            raised = False
+        except ValueError:
+            raised = True
+        ok = sym.and_(arch in RPM_ARCHES, sym.not_(arch in ["src", "nosrc"]))
+        sym.check("call-%d-accepted-iff-known-binary-arch" % step, sym.iff(raised, sym.not_(ok)))
+        if not raised:
+            accepted.append(arch)
+    sym.cover("called")
+    table = m.rpms if kind == "rpms" else m.images
+    if accepted:
+        sym.check("no-source-key", sym.not_(sym.or_("src" in table["Server"], "nosrc" in table["Server"])))
+        for a in accepted:
+            sym.check("filed-under-its-arch", a in table["Server"])
+    else:
+        sym.check("nothing-filed", table == {})
+
+
 def image_dict(sym, tag, arch):
     return {
         "path": sym.str("path_" + tag, 3, minlen=1), "mtime": sym.int("mtime_" + tag), "size": sym.int("size_" + tag, 1, None), "volume_id": None,
@@ -202,6 +232,9 @@ def jobs(tier, seed):
         {"harness": "images_add_arch", "params": {"n": 14 if big else 12}},
         {"harness": "rpms_add_arch", "params": {"n": 14 if big else 12}},
     ]
+    for kind in ("rpms", "images"):
+        for same in (True, False):
+            out.append({"harness": "add_arch_history", "params": {"kind": kind, "n": 12 if big else 8, "same": same}})
     for lay in LAYOUTS:
         for ws in (True, False):
             out.append({"harness": "images_old_src", "params": {"layout": lay, "with_subvariant": ws}})
@@ -210,10 +243,11 @@ def jobs(tier, seed):
 
 
 META = {
-    "expected_covers": {"images_add_arch": ["called"], "rpms_add_arch": ["called"], "images_old_src": ["loaded", "rewritten"],
+    "expected_covers": {"add_arch_history": ["called"], "images_add_arch": ["called"], "rpms_add_arch": ["called"], "images_old_src": ["loaded", "rewritten"],
                         "rpms_old_src": ["loaded", "rewritten"]},
     "assumptions": [
         "add: the architecture argument is an arbitrary string up to 12 (thorough 14) characters; membership in the real 61-entry table is one formula",
+        "histories: three adds on one manifest (the same arch three times, or a second arbitrary one in between), arch strings up to 8 (thorough 12) characters",
         "old documents: layouts from a catalogue (1-2 variants, 1-3 binary arches, src entry present/absent), every leaf symbolic; "
         "images header version 1.0/1.1 and rpms header version 0.0-0.3 as a symbolic integer; a variant with only a src entry is outside the claim",
         "JSON text layer replaced by the DocText stub",
